@@ -924,6 +924,7 @@ func c14Escape(c *Ctx) {
 		}
 		return ""
 	}
+	tab := c.ExecTable()
 	pkgs := map[string]bool{"policy": true, "failsafe": true}
 	for _, p := range executorPkgs {
 		pkgs[p] = true
@@ -1024,17 +1025,32 @@ func c14Escape(c *Ctx) {
 					continue
 				}
 				// (2) calls of in-scope functions: remember what is passed for execution-typed parameters
-				if e.Fn != nil && c.P.InScope[e.Fn] && e.Fn.Pkg != nil && pkgs[e.Fn.Pkg.Pkg.Name()] {
-					params := e.Fn.Params
+				var targets []*ssa.Function
+				if e.Fn != nil {
+					targets = []*ssa.Function{e.Fn}
+				} else if e.FnTerm == nil {
+					// interface dispatch on an executor slot: every implementer's slot is a possible target
+					for _, info := range tab {
+						if f := info.Slots[e.Method]; f != nil {
+							targets = append(targets, f)
+						}
+					}
+				}
+				for _, tf := range targets {
+					if !(c.P.InScope[tf] && tf.Pkg != nil && pkgs[tf.Pkg.Pkg.Name()]) {
+						continue
+					}
+					eFn := tf
+					params := eFn.Params
 					off := 0
-					if e.Fn.Signature.Recv() != nil {
+					if eFn.Signature.Recv() != nil {
 						off = 1
 					}
 					for ai, a := range e.Args {
 						if ai+off >= len(params) || isExecType(params[ai+off].Type()) == "" {
 							continue
 						}
-						callArgs = append(callArgs, callArg{caller: fn, callee: e.Fn, arg: ai + off, status: statusOf(p, a), pos: c.P.Pos(e.Instr.Pos())})
+						callArgs = append(callArgs, callArg{caller: fn, callee: eFn, arg: ai + off, status: statusOf(p, a), pos: c.P.Pos(e.Instr.Pos())})
 					}
 				}
 			}
